@@ -153,7 +153,7 @@ Proof.
         assert (Href : refE k = true).
         { rewrite <- Eke. apply has_entry_in; [apply Hh; exact Hine | exact Er]. }
         rewrite Href. cbn [b2n]. lia. }
-      unfold phi at 2. cbn [map list_sum]. lia.
+      assert (H1 : phi h' [k] = (cost h' k + 0)%nat) by reflexivity. lia.
     + assert (Hres : resE k = true).
       { rewrite <- Eke. apply has_entry_in; [apply Hh; exact Hine | rewrite Er; reflexivity]. }
       destruct (e_cnt e >=? gen_node_min_count).
@@ -169,10 +169,13 @@ Qed.
 (* ---------- the closed bound ---------- *)
 Definition weight (x : vkey) : nat := (b2n (refE x) + 8 * b2n (resE x))%nat.
 
+Lemma list_sum_cons : forall x l, list_sum (x :: l) = (x + list_sum l)%nat.
+Proof. reflexivity. Qed.
+
 Lemma W_le_enum : forall n k, (W n k <= 1 + list_sum (map weight (enum n k)))%nat.
 Proof.
-  induction n as [|n IH]; intros k; cbn [W enum map list_sum]; unfold weight at 1.
-  - destruct (resE k); cbn [b2n]; lia.
+  induction n as [|n IH]; intros k; cbn [W enum map]; rewrite list_sum_cons; unfold weight at 1.
+  - destruct (resE k); cbn [b2n map list_sum]; simpl; lia.
   - destruct (resE k) eqn:Er; cbn [b2n]; [|lia].
     rewrite list_sum_flat_map.
     assert (H : (list_sum (map (W n) (children k))
@@ -217,7 +220,7 @@ Proof.
   intros l Hnd. unfold weight.
   rewrite (list_sum_map_add (fun x => b2n (refE x)) (fun x => (8 * b2n (resE x))%nat)).
   assert (H8 : list_sum (map (fun x => (8 * b2n (resE x))%nat) l) = (8 * list_sum (map (fun x => b2n (resE x)) l))%nat).
-  { clear Hnd. induction l as [|x xs IH]; simpl; [lia | rewrite IH; lia]. }
+  { clear Hnd. induction l as [|x xs IH]; [reflexivity|]. cbn [map]. rewrite !list_sum_cons, IH. lia. }
   rewrite H8.
   pose proof (count_has_entry is_ref E l Hnd) as H1.
   pose proof (count_has_entry (fun e => negb (is_ref e)) E l Hnd) as H2.
@@ -228,7 +231,7 @@ Theorem load_octree_terminates : forall fuel, (fuel_bound t <= fuel)%nat -> load
 Proof.
   intros fuel Hf. unfold load_octree. apply traverse_fuel.
   - intros e He. unfold page_dict in He. apply in_rev in He. unfold E, all_entries. apply in_or_app. left. exact He.
-  - unfold phi. cbn [map list_sum].
+  - assert (H0 : phi (page_dict (t_root t)) [root_key] = (cost (page_dict (t_root t)) root_key + 0)%nat) by reflexivity.
     pose proof (cost_le_W (page_dict (t_root t)) root_key) as H1.
     pose proof (W_le_enum (idx root_key) root_key) as H2.
     pose proof (weight_sum_le (enum (idx root_key) root_key) (NoDup_enum _ _)) as H3.
